@@ -266,7 +266,8 @@ def fixed_cases():
             '<r xml:lang="en"><a xmlns="u1" xml:space="preserve"/></r>', '<r xmlns:a="u1" xmlns:b="u2" xmlns:c="u3" a:k="" b:k="" c:k=""/>']
     maps = [None, {}, {None: "u1"}, {"": "u2"}, {"p": "u1"}, {"ns0": "u1"}, {"ns0": "u2"}, {"ns1": "u1"}, {"ns0": "u3", "ns1": "u2"},
             {"ns0": "other"}, {"p": "u1", "q": "u2"}, {"z": ""}, {"svg": "u1"}, {None: "u1", "": "u2"}, {"xml": "u1"},
-            {"p": XML_NS}, {"ns00": "u1"}, {"p": "u1", None: "u2"}]
+            {"p": XML_NS}, {"ns00": "u1"}, {"p": "u1", None: "u2"}, {"xmldsig": "u1"}, {"xmlsec": "u2", "xm": "u1"},
+            {"xmlx": "u1", "x": "u2"}, {"xmlnsx": "u2"}]
     return [{"route": "parse", "src": s, "mapping": mapping_json(m)} for s in srcs for m in maps]
 
 
